@@ -30,6 +30,18 @@ void harness(void)
 	MPT_STRUCT(node) *P = mpt_node_new(0), *A = mpt_node_new(0), *B = mpt_node_new(0), *X, *r;
 	int which = (int) V_IN_RANGE("target", 0, 2), unlink_first = V_IN_BOOL("unlink_first"), clear = V_IN_BOOL("clear_parent");
 	V_ASSUME(P && A && B);
+	if (V_IN_BOOL("parentless_list")) {
+		/* sibling list A - B without a parent; P stays a separate root */
+		V_ASSERT(mpt_gnode_after(A, B) == B && A->next == B && B->prev == A && !A->parent && !B->parent, "list built as intended");
+		X = which == 1 ? A : B;
+		r = mpt_node_destroy(X);
+		V_ASSERT(r == X, "destroying a node that still has a sibling link is refused");
+		V_ASSERT(A->next == B && B->prev == A, "refused destroy changes nothing");
+		mpt_node_unlink(B);
+		V_ASSERT(mpt_node_destroy(A) == 0 && mpt_node_destroy(B) == 0 && mpt_node_destroy(P) == 0, "unlinked nodes are released");
+		V_WITNESS_END();
+		return;
+	}
 	V_ASSERT(mpt_gnode_insert(P, 0, A) == 0 && mpt_gnode_insert(P, 0, B) == 0, "children inserted");
 	V_ASSERT(P->children == A && A->next == B && B->prev == A && A->parent == P && B->parent == P, "tree built as intended");
 	if (clear) {
